@@ -249,6 +249,8 @@ class FrameEval:
         raise Unknown(type(e).__name__)
 
     def endo(self, p, node, what):
+        if not isinstance(p, NC):
+            raise Unknown(f"{what} of a value that is not a typed tensor")
         ty = self.poly_type(p, node, what)
         if ty[0] != ty[1]:
             raise FrameError(node, f"{what} is applied to a tensor with frames {ty}; it needs an endomorphism of one frame")
@@ -486,6 +488,12 @@ class _StateSub(ast.NodeTransformer):
             return n.value
         return self.generic_visit(n)
 
+    def visit_Call(self, n):
+        # the slice of the state vector that belongs to one branch is again a stored distortion
+        if (dotted(n.func) or "").endswith("_return_state_for_branch") and n.args and isinstance(n.args[0], ast.Name) and n.args[0].id in self.names:
+            return n.args[0]
+        return self.generic_visit(n)
+
 
 def _run_with_state(fe, sc):
     import copy
@@ -503,30 +511,55 @@ def _state_update(ctx, rule, sc, hp, sp):
     fe.env[sp] = NC.letter("P")
     mod = sc.module
     found = 0
-    try:
-        for st in ast.walk(sc.node):
-            if not isinstance(st, ast.Assign) or len(st.targets) != 1 or not isinstance(st.targets[0], ast.Name):
-                continue
-            v = st.value
+    from .common import normalize
+
+    def strain_like(v):
+        """typed value of a trial-strain / state-increment call (possibly nested, after helper inlining), else None"""
+        if isinstance(v, ast.Name):
+            x = fe.env.get(v.id)
+            return x if isinstance(x, NC) else None
+        if isinstance(v, ast.Call):
+            d_ = dotted(v.func) or ""
             # trial strain: call of the module's elastic strain function -> [I,I] tensor (checked separately above)
-            if isinstance(v, ast.Call) and (dotted(v.func) or "").endswith(("compute_elastic_logarithmic_strain", "_compute_elastic_logarithmic_strain")):
-                fe.env[st.targets[0].id] = fe.new_letter((If, If), True, "Ee")
-                continue
+            if d_.endswith(("compute_elastic_logarithmic_strain", "_compute_elastic_logarithmic_strain")):
+                return fe.new_letter((If, If), True, "Ee")
             # state increment derived from the trial strain (isotropic function of it): same frames
-            if isinstance(v, ast.Call) and (dotted(v.func) or "").endswith(("compute_state_increment", "_compute_state_increment")):
-                a0 = v.args[0]
-                src_t = fe.env.get(a0.id) if isinstance(a0, ast.Name) else None
+            if d_.endswith(("compute_state_increment", "_compute_state_increment")) and v.args:
+                src_t = strain_like(v.args[0])
                 if isinstance(src_t, NC):
-                    fe.env[st.targets[0].id] = fe.new_letter(fe.poly_type(src_t, v, "increment"), True, "dE")
-                continue
+                    return fe.new_letter(fe.poly_type(src_t, v, "increment"), True, "dE")
+        return None
+    # statements in order; `a, b = helper(...)` of a straight-line helper is split into its components first
+    stmts = []
+    for st in ast.walk(sc.node):
+        if isinstance(st, ast.Assign) and len(st.targets) == 1:
+            t = st.targets[0]
+            if isinstance(t, ast.Name):
+                stmts.append((st, t.id, st.value))
+            elif isinstance(t, ast.Tuple) and isinstance(st.value, ast.Call):
+                nv = normalize(st.value, sc, stop=("compute_elastic_logarithmic_strain", "_compute_elastic_logarithmic_strain",
+                                                   "compute_state_increment", "_compute_state_increment", "_return_state_for_branch"))
+                if isinstance(nv, ast.Tuple) and len(nv.elts) == len(t.elts):
+                    for te, ve in zip(t.elts, nv.elts):
+                        if isinstance(te, ast.Name):
+                            stmts.append((st, te.id, ve))
+    try:
+        for (st, tname, v) in stmts:
+            if isinstance(v, ast.Call):
+                sl = strain_like(v)
+                if sl is not None:
+                    fe.env[tname] = sl
+                    continue
+                if (dotted(v.func) or "").endswith(("compute_elastic_logarithmic_strain", "_compute_elastic_logarithmic_strain", "compute_state_increment", "_compute_state_increment")):
+                    continue
             if isinstance(v, ast.Call) and (dotted(v.func) or "").endswith("_return_state_for_branch"):
-                fe.env[st.targets[0].id] = NC.letter("P")
+                fe.env[tname] = NC.letter("P")
                 continue
             # tensors built by matrix products: type them
             if any(isinstance(w, ast.BinOp) and isinstance(w.op, ast.MatMult) for w in ast.walk(v)):
                 vv = _StateSub({sp} | {k for k, x in fe.env.items() if isinstance(x, NC)}).visit(copy.deepcopy(v))
                 val = fe.ev(vv)
-                fe.env[st.targets[0].id] = val
+                fe.env[tname] = val
                 if isinstance(val, NC):
                     ty = fe.poly_type(val, v, "new internal distortion")
                     found += 1
@@ -540,7 +573,7 @@ def _state_update(ctx, rule, sc, hp, sp):
                 vv = _StateSub({sp} | {k for k, x in fe.env.items() if isinstance(x, NC)}).visit(copy.deepcopy(v))
                 val = fe.ev(vv)
                 if isinstance(val, NC):
-                    fe.env[st.targets[0].id] = val
+                    fe.env[tname] = val
             except (Unknown, NotPolynomial, KeyError):
                 pass
     except FrameError as ex:
